@@ -40,9 +40,11 @@ class CancellerBoom(Exception):
 class DSys:
     """A population of real Deferreds plus the recorder.  step(op, x) = one public call, one event."""
 
-    def __init__(self, cfg):
+    def __init__(self, cfg, noarg=False):
         from twisted.internet import defer
         from twisted.python.failure import Failure
+
+        self.noarg = noarg     # errback() is called without argument inside an except block
 
         self.defer = defer
         self.Failure = Failure
@@ -110,7 +112,13 @@ class DSys:
                 d.callback(100 * x + self.att[x - 1])
             elif op == "errback":
                 self.att[x - 1] += 1
-                d.errback(Boom(100 * x + self.att[x - 1]))
+                if self.noarg:
+                    try:
+                        raise Boom(100 * x + self.att[x - 1])
+                    except Boom:
+                        d.errback()
+                else:
+                    d.errback(Boom(100 * x + self.att[x - 1]))
             elif op == "cancel":
                 d.cancel()
             elif op == "addinner":
@@ -153,12 +161,20 @@ class DSys:
         return ops
 
 
-def run_history(cfg, ops):
-    s = DSys(cfg)
-    for op, x in ops:
-        s.step(op, x)
-    s.close()
-    return {"cfg": cfg, "ops": [list(o) for o in ops], "ev": s.ev}
+def run_history(cfg, ops, noarg=False, debug=False):
+    """noarg: errbacks are argument-less errback() calls inside an except block; debug: the history runs
+    under defer.setDebugging(True).  Same calls, same specification."""
+    from twisted.internet import defer
+    was = defer.getDebugging()
+    defer.setDebugging(bool(debug))
+    try:
+        s = DSys(cfg, noarg)
+        for op, x in ops:
+            s.step(op, x)
+        s.close()
+    finally:
+        defer.setDebugging(was)
+    return {"cfg": cfg, "ops": [list(o) for o in ops], "ev": s.ev, "mode": {"noarg": noarg, "debug": debug}}
 
 
 def histories(maxd, depth, prefix=(), ops_allowed=OPS):
@@ -338,7 +354,7 @@ def report(ctx, traces, rej, label):
         ctx.violation(fingerprint(t, x),
                       "real Deferred execution (cancellers %s) not explained by DeferredCancel.tla at event %d (%s): %s" % (
                           t["cfg"]["kinds"], x.reached, label, ev),
-                      dict(cfg=t["cfg"], ops=t["ops"][:x.reached + 1], rejected_at=x.reached))
+                      dict(cfg=t["cfg"], ops=t["ops"][:x.reached + 1], rejected_at=x.reached, mode=t.get("mode", {})))
 
 
 def run(ctx):
@@ -384,6 +400,13 @@ def run(ctx):
             drift.append(len(traces))
         traces.append(t)
     ctx.extra["spec_behaviours_replayed"] = len(behs)
+    # input-mode variation: histories 1,3 mod 4 use argument-less errback() inside an except block,
+    # histories 2,3 mod 4 run under defer.setDebugging(True)
+    for i in range(len(traces)):
+        if i % 4:
+            traces[i] = run_history(traces[i]["cfg"], [tuple(o) for o in traces[i]["ops"]], noarg=i % 4 in (1, 3), debug=i % 4 in (2, 3))
+    ctx.extra["histories_with_argless_errback"] = len([i for i in range(len(traces)) if i % 4 in (1, 3)])
+    ctx.extra["histories_under_setDebugging"] = len([i for i in range(len(traces)) if i % 4 in (2, 3)])
     ctx.note_traces(traces)
     ctx.log("recorded %d real executions (%d exhaustive depth %d, %d random, %d from TLC behaviours)" % (
         len(traces), nex, depth, nrand, len(behs)))
@@ -400,7 +423,7 @@ def run(ctx):
 
 
 def replay(ctx, obj):
-    t = run_history(obj["cfg"], [tuple(o) for o in obj["ops"]])
+    t = run_history(obj["cfg"], [tuple(o) for o in obj["ops"]], **obj.get("mode", {}))
     ctx.note_trace(t)
     rej = ctx.validate("DeferredCancelTrace", [t])
     report(ctx, [t], rej, "replay")
